@@ -830,7 +830,7 @@ func runSignedShift(c *Ctx) []Obligation {
 		info := p.TypesInfo
 		for _, fd := range c.FuncDecls(p) {
 			obj, _ := info.Defs[fd.Name].(*types.Func)
-			if obj == nil || fd.Recv != nil || len(fd.Body.List) != 1 {
+			if obj == nil || fd.Recv != nil || fd.Body == nil {
 				continue
 			}
 			sig := obj.Type().(*types.Signature)
@@ -846,23 +846,51 @@ func runSignedShift(c *Ctx) []Obligation {
 			if pUnsigned == rUnsigned {
 				continue
 			}
-			ret, ok := fd.Body.List[0].(*ast.ReturnStmt)
-			if !ok || len(ret.Results) != 1 {
-				continue
-			}
-			x, ok := ast.Unparen(ret.Results[0]).(*ast.BinaryExpr)
-			if !ok || x.Op != token.XOR {
-				continue
-			}
-			// the right shifts in the expression
+			// the right shifts in the body, and additions to the unsigned argument before a narrowing
 			var shifts []*ast.BinaryExpr
-			ast.Inspect(x, func(n ast.Node) bool {
-				if be, ok := n.(*ast.BinaryExpr); ok && be.Op == token.SHR {
+			var wraps []*ast.BinaryExpr
+			prm := sig.Params().At(0)
+			ast.Inspect(fd.Body, func(n ast.Node) bool {
+				be, ok := n.(*ast.BinaryExpr)
+				if !ok {
+					return true
+				}
+				switch be.Op {
+				case token.SHR:
 					shifts = append(shifts, be)
+				case token.ADD, token.SUB:
+					for _, side := range []ast.Expr{be.X, be.Y} {
+						if id, ok := ast.Unparen(side).(*ast.Ident); ok && info.Uses[id] == prm && pUnsigned {
+							wraps = append(wraps, be)
+						}
+					}
 				}
 				return true
 			})
+			if len(shifts) == 0 {
+				continue
+			}
+			if len(wraps) > 0 {
+				out = append(out, Obligation{Key: c.FuncName(p, fd), Pos: c.Position(wraps[0].Pos()), Status: Violation,
+					Detail: fmt.Sprintf("the decoder computes %s on its unsigned argument, which takes every value of its width: at the extreme the sum wraps to 0 and the largest-magnitude value decodes to 0 (the coding is no longer invertible on all values)", nodeText(c.Fset, wraps[0]))})
+				continue
+			}
 			if len(shifts) != 1 {
+				// several shifts (a branching form): each is judged like the single one; report the first that fails
+				bad := false
+				for _, sh := range shifts {
+					opb, _ := info.TypeOf(sh.X).Underlying().(*types.Basic)
+					opUnsigned := opb != nil && opb.Info()&types.IsUnsigned != 0
+					if pUnsigned != opUnsigned {
+						out = append(out, Obligation{Key: c.FuncName(p, fd), Pos: c.Position(sh.Pos()), Status: Violation,
+							Detail: fmt.Sprintf("%s is shifted with the wrong signedness for this direction of the coding", nodeText(c.Fset, sh.X))})
+						bad = true
+						break
+					}
+				}
+				if !bad {
+					out = append(out, Obligation{Key: c.FuncName(p, fd), Pos: c.Position(fd.Pos()), Status: OK, Detail: fmt.Sprintf("%d shifts, each with the signedness of its direction", len(shifts))})
+				}
 				continue
 			}
 			sh := shifts[0]
